@@ -24,7 +24,7 @@ if [ "$REPO" != "/repo" ]; then
   mkdir -p "$alt/out"
   sed "s|=> /repo|=> $REPO|" harness/go.mod > "$alt/go.mod"
   cp harness/go.sum "$alt/go.sum" 2>/dev/null
-  MODFLAG="-modfile=$alt/go.mod"
+  MODFLAG="-trimpath -modfile=$alt/go.mod"
   BIN="$alt/$lower"
   export VERIF_OUT="${VERIF_OUT:-$alt/out}"
 fi
